@@ -58,7 +58,7 @@ BASE = ('import sys\n'
         '    if mode == "recursion":\n        return finish(mode)\n'
         '    if mode == "timeout-error":\n        raise TimeoutError("the student says time is up")\n'
         '    if mode == "bdb-quit":\n        import bdb\n        raise bdb.BdbQuit("student")\n'
-        '    if mode == "interrupt-main":\n        import _thread\n        _thread.interrupt_main()\n        for _ in range(10 ** 7):\n            pass\n        return 8\n'
+        '    if mode == "interrupt-main":\n        import _thread\n        _thread.interrupt_main()\n        for _ in range(3 * 10 ** 5):\n            pass\n        return 8\n'
         '    return 0\n')
 MODES = ['normal', 'value-error', 'key-error', 'bad-str', 'system-exit', 'keyboard-interrupt', 'generator-exit', 'base-exception',
          'busy-loop', 'block-forever', 'replace-stdout', 'replace-sleep', 'import-json', 'recursion', 'close-stdout', 'close-stdout-then-print', 'rebind-module', 'reimport-module',
@@ -350,7 +350,7 @@ class Stepper:
         self.buf = b''
         self.history = []
         msg = self.read(60)
-        if not msg or not msg.get('ready'):
+        if not msg or not msg.get('ready') or msg.get('_timeout'):
             self.kill()
             raise RuntimeError('C05 child failed to start: %s' % (msg or {}).get('err'))
 
@@ -359,7 +359,7 @@ class Stepper:
         while b'\n' not in self.buf:
             left = deadline - time.time()
             if left <= 0:
-                return None
+                return {'_timeout': True}
             ready, _, _ = select.select([self.rfd], [], [], min(left, 1.0))
             if ready:
                 chunk = os.read(self.rfd, 65536)
@@ -398,14 +398,22 @@ class Stepper:
 
     def apply(self, op):
         self.history.append(op)
+        if getattr(self, 'gave_up', False):
+            return []
         try:
             self.w.write(json.dumps(op) + '\n')
             self.w.flush()
         except (BrokenPipeError, ValueError):
             return [V('C05|process-died', 'the grading process died before %r' % (op,))]
-        msg = self.read(60)
+        msg = self.read(90)
         if msg is None:
-            return [V('C05|process-died-or-hung', 'the grading process died or hung while applying %r (history %r)' % (op, self.history[-3:]))]
+            return [V('C05|process-died', 'the grading process died while applying %r (history %r)' % (op, self.history[-3:]))]
+        if msg.get('_timeout'):
+            # no answer within the budget of one operation (a loaded machine, or a hang - that is C14's subject): the rest of this
+            # history is not judged; counted in the evidence as inconclusive
+            self.gave_up = True
+            self.kill()
+            return []
         if 'err' in msg:
             raise RuntimeError('C05 child harness error:\n' + msg['err'])
         return [V(c, m) for c, m in msg['v']]
@@ -419,7 +427,7 @@ class Stepper:
         self.kill()
         abnormal_at = [i for i, o in enumerate(self.history) if o.get('op') == 'exec' and o.get('mode') in ABNORMAL]
         nontrivial = bool(abnormal_at) and abnormal_at[0] < len(self.history) - 1
-        classes = sorted({'mode=' + o['mode'] for o in self.history if o.get('op') == 'exec'} | {'fault=' + o['fault'] for o in self.history if o.get('fault')} |
+        classes = sorted(({'operation-timeout(inconclusive)'} if getattr(self, 'gave_up', False) else set()) | {'mode=' + o['mode'] for o in self.history if o.get('op') == 'exec'} | {'fault=' + o['fault'] for o in self.history if o.get('fault')} |
                          {'entry=' + o['entry'] for o in self.history if o.get('op') == 'exec'})
         seen, out = set(), []
         for v in viol:
